@@ -7,8 +7,9 @@ def run(ctx):
     common(ctx)
     ctx.add_trusted('callee contract of ring_buffer::Bounded (push/pop/len/is_empty), verified on the real bodies by unit ring_buffer (C06)')
     ctx.add_assumption('R-refcell: `self.shared_fork.borrow_mut()` is removed and the shared state is a `&mut ForkShared` parameter: '
-                       'Rc/RefCell plumbing of by_rc/by_ref (dynamic borrow checks, reference counting, both branches really '
-                       'sharing one cell) is NOT verified; a local RefCell stand-in is used for Signal::fork')
+                       'dynamic borrow checks, reference counting and the aliasing of one cell by both branches are NOT verified; '
+                       'Fork::by_rc / by_ref are verified against local Rc / RefCell stand-ins (the split hands both branches the '
+                       'shared state unchanged)')
     ctx.notes.append('the 8 macro-instantiated bodies (define_branch! x {A,B} x {Rc,Ref}: next, pending_frames) are extracted by '
                      'instantiating the macro arm textually; lemma_fork_step proves the interleaving property by induction step '
                      'over the per-call contract (ghost history h and positions pa, pb), for every capacity >= 1')
@@ -17,6 +18,8 @@ def run(ctx):
         sm['%s::next' % t] = ['%s::next' % t]
         sm['%s::pending_frames' % t] = ['%s::next' % t]
     sm['Signal::fork'] = ['BranchRefA::next']
+    sm['Fork::by_rc'] = ['BranchRcA::next']
+    sm['Fork::by_ref'] = ['BranchRefA::next']
     run_unit(ctx, 'fork', search_crate='signal', search_map=sm)
 
 
